@@ -4,7 +4,7 @@ From Coq Require Export String.
 From Coq Require Export Uint63.
 From Coq Require Import Ascii.
 From AGH Require Import Base.Run.
-From AGH Require Export Model.Migrate Model.MigrateLoad Model.MigrateKinds Model.MigrateFootprint Model.MigrateFile.
+From AGH Require Export Model.Migrate Model.MigrateLoad Model.MigrateKinds Model.MigrateFootprint Model.MigrateFile Model.MigratePorts.
 (* not Local: the shard files contain string literals *)
 Open Scope string_scope.
 
@@ -135,7 +135,14 @@ Inductive case :=
      running the loader alone).  Observed: [cls] 0 error / 1 nil / 2 panic;
      [chg]: the bytes on disk differ from before, [out] then being the decoded
      file; [ldeq]: what was loaded (config.fileData) equals the bytes on disk *)
-  | CParse (f : content) (t : otab) (wr acc : bool) (cls : Z) (chg : bool) (out : obj) (ldeq : bool).
+  | CParse (f : content) (t : otab) (wr acc : bool) (cls : Z) (chg : bool) (out : obj) (ldeq : bool)
+  (* a document of version [ver] with drawn VALUES (round 6): [ok_own]: the
+     generator's rule says its ports are valid under its own schema
+     (VerifC13PortsOK); [lone]: a web port without a web host below version 23;
+     [verdict]: what the real validateConfig said about the ports of the real
+     upgrade: 0 accepted, 1 refused, 2 not reached (decoding or the bind
+     hosts refused before), 3 the upgrade failed *)
+  | CValDoc (ver : Z) (m : obj) (t : otab) (ok_own lone : bool) (verdict : Z).
 
 Definition res_ok (r : res obj) (cls : Z) (out : obj) : bool :=
   match r with
@@ -151,9 +158,18 @@ Definition loadable_kept (top : option obj) (target : Z) (m : obj) : bool :=
   let input := match top with None => [] | Some i => i end in
   let cur := (zint (fv_val TInt (field_val TInt input "schema_version")) mod 2 ^ 64)%Z in
   if (cur <=? 29)%Z && (target <=? 29)%Z then
-    implb (loadable (Z.to_nat cur) input)
-          (loadable (Z.to_nat target) m && loadable (Z.to_nat target) (norm_obj m))
+    let l := loadable (Z.to_nat cur) input in
+    implb l (loadable (Z.to_nat target) m && loadable (Z.to_nat target) (norm_obj m))
+    (* the statement of [C13_upgrade_preserves_ports_ok] / [C13_output_ports_ok] *)
+    && implb (l && (negb (web_flat (Z.to_nat cur)) || web_together input) && doc_ports_ok (Z.to_nat cur) input)
+             (doc_ports_ok (Z.to_nat target) m && doc_ports_ok (Z.to_nat target) (norm_obj m))
   else true.
+
+(** The model's verdict on the ports of an upgraded file against the real
+    validator's: compared whenever the real one reached the ports. *)
+Definition ports_verdict (b : obj) (verdict : Z) : bool :=
+  if Z.eqb verdict 2 then true
+  else negb (Z.eqb verdict 3) && Bool.eqb (doc_ports_ok 29 b) (Z.eqb verdict 0).
 
 Definition case_ok (c : case) : bool :=
   match c with
@@ -197,6 +213,15 @@ Definition case_ok (c : case) : bool :=
          | None => negb chg
          | Some b => chg && val_eqb (VObj b) (VObj out)
          end
+  | CValDoc ver m t ok_own lone verdict =>
+      let v := Z.to_nat ver in
+      Bool.eqb (doc_ports_ok v m) ok_own && Bool.eqb (lone_at v m) lone &&
+      match migrate (mk_oracles t) (Some m) last_version with
+      | ONew a => ports_verdict (norm_obj a) verdict
+      | OSame => ports_verdict m verdict
+      | OErr => Z.eqb verdict 3
+      | OPanic => false
+      end
   end.
 
 Definition mismatches := Base.Run.mismatches case_ok.
@@ -247,4 +272,19 @@ Definition explain (c : case) : Z * val :=
         | PLoaded _ false => 10 | PLoaded _ true => 11 | PPanic => 20
         end)%Z,
        match w with None => VNull | Some b => VObj b end)
+  | CValDoc ver m t _ _ _ =>
+      (* 10 * (ports valid under the own schema) + (lone web port), and the
+         ports the model reads from its upgrade as [tls, web, dns, https, dot,
+         doq, dnscrypt] (null: some port position is unreadable, or no upgrade) *)
+      let v := Z.to_nat ver in
+      (((if doc_ports_ok v m then 10 else 0) + (if lone_at v m then 1 else 0))%Z,
+       match migrate (mk_oracles t) (Some m) last_version with
+       | ONew a =>
+           match doc_ports 29 (norm_obj a) with
+           | Some p => VArr [VBool (p_tls p); VInt (p_web p); VInt (p_dns p); VInt (p_https p); VInt (p_dot p);
+                             VInt (p_doq p); VInt (p_dnscrypt p); VBool (ports_ok p)]
+           | None => VNull
+           end
+       | _ => VNull
+       end)
   end.
